@@ -373,12 +373,13 @@ def run(ctx):
     from mako.template import Template as _T
     req4, got4 = [], []
     nid = 150 if tier == "quick" else 40000
-    for _ in range(nid):
+    for ii in range(nid):
         src = c04_idents.gen_template(rng)
         ctx.evaluations += 1
         ctx.nontrivial.add(src)
+        c04_idents.ENABLE_LOOP[0] = (ii % 5 != 0)
         try:
-            t = _T(src)
+            t = _T(src, enable_loop=c04_idents.ENABLE_LOOP[0])
         except Exception:  # noqa
             continue          # named block in a def etc.: rejected at compile time
         try:
